@@ -107,16 +107,31 @@ class Harness:
                         self.conv_adt, self.conv_fn, self.conv_fields = p, f, fs
         self.tracker_new = lib.fn("process::scope_visitor::IdentifierTracker::new")
 
+    def by_type(self, adt, values):
+        """field overrides chosen by field TYPE (private field names are free to change): values = [(type predicate, value)]"""
+        over = {}
+        for v in self.lib.adts[adt]["variants"]:
+            for f in v["fields"]:
+                for pred, val in values:
+                    if pred(f["tys"]):
+                        over[f["name"]] = val() if callable(val) else val
+                        break
+        return over
+
     def mode(self, kind, folder="init", rev=False):
         lib = self.lib
         SOURCES = list(reversed(globals()["SOURCES"])) if rev else globals()["SOURCES"]     # insertion order = iteration order of the model map
+        is_map = lambda t: "HashMap<alloc::string::String, std::path::PathBuf>" in t and not t.startswith("core::option::Option<")
+        is_opt_map = lambda t: t.startswith("core::option::Option<") and "HashMap<alloc::string::String, std::path::PathBuf>" in t
+        rc = lambda: some(PyMap([(k, PathV(v)) for k, v in RC_ALIASES]))
         if kind == "path":
-            return Enum(RM, "Path", {"0": make(lib, self.variants["Path"], {
-                "module_folder_name": folder, "sources": PyMap([(k, PathV(v)) for k, v in SOURCES]),
-                "luau_rc_aliases": some(PyMap([(k, PathV(v)) for k, v in RC_ALIASES])), "use_luau_configuration": True})})
-        return Enum(RM, "Luau", {"0": make(lib, self.variants["Luau"], {
-            "aliases": PyMap([("@" + k, PathV(v)) for k, v in SOURCES]),
-            "luau_rc_aliases": some(PyMap([(k, PathV(v)) for k, v in RC_ALIASES])), "use_luau_configuration": True})})
+            adt = self.variants["Path"]
+            return Enum(RM, "Path", {"0": make(lib, adt, self.by_type(adt, [
+                (lambda t: t == "alloc::string::String", folder), (is_map, lambda: PyMap([(k, PathV(v)) for k, v in SOURCES])),
+                (is_opt_map, rc), (lambda t: t == "bool", True)]))})
+        adt = self.variants["Luau"]
+        return Enum(RM, "Luau", {"0": make(lib, adt, self.by_type(adt, [
+            (is_map, lambda: PyMap([("@" + k, PathV(v)) for k, v in SOURCES])), (is_opt_map, rc), (lambda t: t == "bool", True)]))})
 
     def call_node(self, text):
         lib = self.lib
@@ -147,8 +162,9 @@ class Harness:
         return h
 
     def context(self, source):
-        return make(self.lib, CTX, {"path": PathV(source), "resources": Struct("#Resources", {}),
-                                    "project_location": some(PathV(PROJECT)), "original_code": ""})
+        return make(self.lib, CTX, self.by_type(CTX, [
+            (lambda t: t == "std::path::PathBuf", PathV(source)), (lambda t: "Resources" in t, lambda: Struct("#Resources", {})),
+            (lambda t: t == "core::option::Option<std::path::PathBuf>", lambda: some(PathV(PROJECT))), (lambda t: t.endswith("str"), "")]))
 
     def resolve(self, mode, req_or_call, source, files):
         """('ok', normalised path) | ('none',) | ('err',) | ('unknown', reasons)"""
